@@ -289,8 +289,11 @@ enum IOp {
     Len,
     FreshIterFirst,
     SizeHintLower,
+    /// terminal (consume the iterator): only as the last op of a history
+    Last,
+    Count,
 }
-const IOPS: [IOp; 11] = [IOp::Next, IOp::Nth0, IOp::Nth1, IOp::Nth2, IOp::Get(0), IOp::Get(1), IOp::Get(2), IOp::Get(3), IOp::Len, IOp::FreshIterFirst, IOp::SizeHintLower];
+const IOPS: [IOp; 13] = [IOp::Next, IOp::Nth0, IOp::Nth1, IOp::Nth2, IOp::Get(0), IOp::Get(1), IOp::Get(2), IOp::Get(3), IOp::Len, IOp::FreshIterFirst, IOp::SizeHintLower, IOp::Last, IOp::Count];
 
 /// Run a history on a fresh iterator; returns (results, fingerprint of the iterator's Debug text).
 fn run_hist<P: ParseAt + Dig + std::fmt::Debug>(enc: Enc, data: &[u8], hist: &[IOp]) -> (Vec<Option<u64>>, u64) {
@@ -299,7 +302,13 @@ fn run_hist<P: ParseAt + Dig + std::fmt::Debug>(enc: Enc, data: &[u8], hist: &[I
     let t = ParsingTable::<AnyEndian, P>::new(e, c, data);
     let mut it = t.iter();
     let mut res = Vec::new();
-    for op in hist {
+    for (k, op) in hist.iter().enumerate() {
+        if matches!(op, IOp::Last | IOp::Count) {
+            assert!(k + 1 == hist.len(), "terminal op in the middle of a history");
+            let r = if *op == IOp::Last { it.last().map(|x| x.dig()) } else { Some(it.count() as u64) };
+            res.push(r);
+            return (res, 0xdead_0000 ^ k as u64);
+        }
         let r = match op {
             IOp::Next => it.next().map(|x| x.dig()),
             IOp::Nth0 => it.nth(0).map(|x| x.dig()),
@@ -309,6 +318,7 @@ fn run_hist<P: ParseAt + Dig + std::fmt::Debug>(enc: Enc, data: &[u8], hist: &[I
             IOp::Len => Some(t.len() as u64 * 2 + t.is_empty() as u64),
             IOp::FreshIterFirst => t.iter().next().map(|x| x.dig()),
             IOp::SizeHintLower => Some(it.size_hint().0 as u64),
+            IOp::Last | IOp::Count => unreachable!(),
         };
         res.push(r);
     }
@@ -384,6 +394,16 @@ impl Space for Sequences {
                     IOp::Len => Some(n as u64 * 2 + (n == 0) as u64),
                     IOp::FreshIterFirst => truth.first().copied(),
                     IOp::SizeHintLower => None,
+                    IOp::Last => {
+                        let w = if cursor < n { Some(truth[n - 1]) } else { None };
+                        cur = n;
+                        w
+                    }
+                    IOp::Count => {
+                        let w = Some((n - cursor.min(n)) as u64);
+                        cur = n;
+                        w
+                    }
                 };
                 let ok = match op {
                     // size_hint's lower bound must never exceed what is really left
@@ -397,7 +417,7 @@ impl Space for Sequences {
                     );
                     return;
                 }
-                if seen.insert((fp, cur)) {
+                if !matches!(op, IOp::Last | IOp::Count) && seen.insert((fp, cur)) {
                     states += 1;
                     q.push_back((h, cur));
                 }
